@@ -182,6 +182,7 @@ pub struct Sim {
     pub limit_hit_after_failure: bool,
     pub had_failure_final: bool,
     pub deliveries_to_finished: u64,
+    pub bad_fp_to_outstanding: u64,
     pub lt_states_seen: u8,
 }
 
@@ -252,6 +253,7 @@ impl Sim {
             limit_hit_after_failure: false,
             had_failure_final: false,
             deliveries_to_finished: 0,
+            bad_fp_to_outstanding: 0,
             lt_states_seen: 0,
         })
     }
